@@ -165,7 +165,7 @@ func c01(c *q.Ctx) {
 		c.Before(ul, q.ToCall("Batch.Put"), q.ToCall("Batch.Write"), "pointer staged before the batch is written")
 	}
 	c.WhoWrites("State.latestBlockid", map[string]string{
-		st + "NewState":                       "loaded from the persisted pointer at open",
+		st + "NewState":                     "loaded from the persisted pointer at open",
 		st + "(*State).updateLatestBlockid": "the only mutator, after Write()==nil",
 	}, "the latest-block pointer has one mutator")
 
